@@ -163,13 +163,14 @@ Done == built # <<>>
 EntryHasNoPreds     == Done => Preds(1) = {}
 ExitHasNoSuccs      == Done => SuccSet(2) = {} /\ DSuccSet(2) = {}
 AllFromPredless     == Done => ReachAll(NoPredBlocks) = Blocks
-OutDegreeAtMostTwo  == Done => \A b \in Blocks : Len(G.succ[b]) + Len(G.dsucc[b]) <= 2
+\* real successors only: a branching block whose arms both jump also carries a dummy edge into the dead code after it
+OutDegreeAtMostTwo  == Done => \A b \in Blocks : Len(G.succ[b]) <= 2
 ReachableClosed     == Done => \A b \in built.reach : SuccSet(b) \subseteq built.reach
 DummyOnlyIntoDead   == Done => \A b \in Blocks : DSuccSet(b) \cap built.reach = {}
 DeadNeverEntersLive == Done => \A b \in Blocks \ built.reach : SuccSet(b) \cap built.reach = {}
 Holds == [EntryHasNoPreds |-> Preds(1) = {}, ExitHasNoSuccs |-> (SuccSet(2) = {} /\ DSuccSet(2) = {}),
           AllFromPredless |-> ReachAll(NoPredBlocks) = Blocks,
-          OutDegreeAtMostTwo |-> (\A b \in Blocks : Len(G.succ[b]) + Len(G.dsucc[b]) <= 2),
+          OutDegreeAtMostTwo |-> (\A b \in Blocks : Len(G.succ[b]) <= 2),
           ReachableClosed |-> (\A b \in built.reach : SuccSet(b) \subseteq built.reach),
           DummyOnlyIntoDead |-> (\A b \in Blocks : DSuccSet(b) \cap built.reach = {}),
           DeadNeverEntersLive |-> (\A b \in Blocks \ built.reach : SuccSet(b) \cap built.reach = {})]
